@@ -120,7 +120,8 @@ func (o *packetScanCmdOpts) getScanRange(dstSubnet *net.IPNet) (*scan.Range, err
 	if o.srcIP != nil {
 		srcIP = o.srcIP
 	}
-	if srcIP == nil {
+	// only IPv4 source addresses can be used
+	if srcIP = srcIP.To4(); srcIP == nil {
 		return nil, errSrcIP
 	}
 
@@ -132,7 +133,7 @@ func (o *packetScanCmdOpts) getScanRange(dstSubnet *net.IPNet) (*scan.Range, err
 	return &scan.Range{
 		Interface: iface,
 		DstSubnet: dstSubnet,
-		SrcIP:     srcIP.To4(),
+		SrcIP:     srcIP,
 		SrcMAC:    srcMAC}, nil
 }
 
